@@ -394,7 +394,7 @@ def run(ctx) -> None:
             one(db, D.discovery(db), [db.time_name], 'function', 'exhaustive3', True, ('exh3', db.conv, tuple(shapes[0])))
 
     # (b) random datasets
-    for i in range(ctx.budget(100, 1500)):
+    for i in range(ctx.budget(100, 800)):
         conv = D.CONVS[i % 5]
         recipe = random_recipe(rng, conv, ctx.tier)
         db = D.build(recipe)
@@ -406,7 +406,7 @@ def run(ctx) -> None:
         one(db, names, [db.time_name], via, 'random', True, ('rnd', conv, cfg, i))
 
     # (c) extended stream: model against code only
-    for i in range(ctx.budget(60, 600)):
+    for i in range(ctx.budget(60, 400)):
         conv = D.CONVS[i % 5]
         recipe, names, ns, label = extended_recipe(rng, conv)
         try:
